@@ -65,6 +65,7 @@ package traffic
 //@   note only memory safety and freshness of the result are proved; the value (balance + sum of cashed - sum of traffic over the map) needs a sum over the map and is not under contract
 //@   assigns nothing
 //@   loop 1 invariant cashed != nil && transfer != nil && fresh(cashed) && fresh(transfer)
+//@   loop 1 assigns nothing
 
 //@ func (*Service).putSendCheque
 //@   property C31
